@@ -51,9 +51,10 @@ type multiSpec struct {
 	Vanish bool `json:"finished_receivers_vanish,omitempty"`
 }
 
-type multiHarness struct{}
+// healthy: nobody leaves, nobody vanishes (part C03MULTI: several healthy receivers of one host all complete)
+type multiHarness struct{ healthy bool }
 
-func (multiHarness) Gen(r *verifsim.SplitMix, tier string, idx int) any {
+func (h multiHarness) Gen(r *verifsim.SplitMix, tier string, idx int) any {
 	sp := multiSpec{Seed: r.Next(), ContentSeed: r.Next(), Leaver: -1}
 	sp.Chunk = []int{256, 1024}[r.Intn(2)]
 	for i, n := 0, 1+r.Intn(3); i < n; i++ {
@@ -74,6 +75,10 @@ func (multiHarness) Gen(r *verifsim.SplitMix, tier string, idx int) any {
 	}
 	sp.Strat = verifsim.Strategy{Kind: []string{"fifo", "rand", "weighted"}[r.Intn(3)], Seed: r.Next(), MaxW: 5, Horizon: 400}
 	sp.Vanish = r.Chance(1, 3)
+	if h.healthy {
+		sp.Leaver, sp.LeaveAtMs, sp.LeaveHow, sp.Vanish = -1, 0, "", false
+		sp.MaxRecv = 1 + r.Intn(4)
+	}
 	return sp
 }
 
@@ -161,6 +166,8 @@ func (multiHarness) Run(spec any) (res verifsim.RunResult) {
 		return -1
 	}
 
+	verifsim.RecoverPanics, verifsim.ExitedStayDead = true, true
+	defer func() { verifsim.RecoverPanics, verifsim.ExitedStayDead = false, false }()
 	s, bubblePanic := runWorld(sp.Seed, sp.Strat, 65536, flags, false, func(w *world) {
 		start := time.Now()
 		stopPool := transfer.VerifResetReadPool(2)
@@ -390,6 +397,11 @@ func (multiHarness) Run(spec any) (res verifsim.RunResult) {
 	})
 	if bubblePanic != "" && !strings.Contains(bubblePanic, "deadlock: main bubble goroutine has exited") {
 		addV("panic", "app-bubble:"+firstLineSrv(bubblePanic), bubblePanic)
+	}
+	if s != nil {
+		for node, msg := range s.Panics {
+			addV("process-panic", node+":"+firstLineSrv(msg), fmt.Sprintf("the %s process panicked: %s", node, msg))
+		}
 	}
 	// ---- judgement ----
 	want := map[string]string{}
